@@ -132,6 +132,27 @@ func (e *Encoder) writeValue(val reflect.Value, tagType byte) error {
 				} else {
 					data = unsafe.Slice((*byte)(val.UnsafePointer()), val.Len())
 				}
+			default:
+				// e.g. []any{int8(1), int8(2)}: the elements are read one by one, as for int and long arrays
+				data = make([]byte, n)
+				for i := range data {
+					elem := val.Index(i)
+					for elem.Kind() == reflect.Interface {
+						elem = elem.Elem()
+					}
+					switch elem.Kind() {
+					case reflect.Int, reflect.Int8, reflect.Int16, reflect.Int32, reflect.Int64:
+						data[i] = byte(elem.Int())
+					case reflect.Uint, reflect.Uint8, reflect.Uint16, reflect.Uint32, reflect.Uint64:
+						data[i] = byte(elem.Uint())
+					case reflect.Bool:
+						if elem.Bool() {
+							data[i] = 1
+						}
+					default:
+						return errors.New("value typed " + elem.Type().String() + "is not allowed in Tag 0x" + strconv.FormatUint(uint64(tagType), 16))
+					}
+				}
 			}
 			_, err := e.w.Write(data)
 			return err
